@@ -5072,6 +5072,10 @@ func (t *Terminal) Loop() error {
 				if act {
 					t.activePreviewOpts.Toggle()
 					updatePreviewWindow(false)
+					// Make the render loop refresh the preview for whatever is
+					// focused when it runs; later actions of the same chain can
+					// move the cursor back to the previously focused item
+					t.version++
 					if t.canPreview() {
 						valid, list := t.buildPlusList(t.previewOpts.command, false)
 						if valid {
